@@ -26,7 +26,8 @@ TITLES = ["Foo", "foo bar", "Ünï/sub", "A:B c", "Foo/documentation", "Foo/test
           "a&b<c>\"d\"", "Main:Foo", "Foo/testcases2", "Foo/testcases", "Foo/mytestcases", "Foo/documentation2", "testcases"]
 BODIES = ["x", " lead", "trail \n", "\n\nblank\n\n", "a&amp;b <tag> ]]> & \"q\"", "",
           "<noinclude>doc</noinclude>body<includeonly>inc</includeonly>", "<!-- c -->t<onlyinclude>only</onlyinclude>u",
-          "a\r\nb", "\tt", "x<noinclude>unclosed"]
+          "a\r\nb", "\tt", "x<noinclude>unclosed",
+          "a\n<!-- c -->\nb", "a\n <!--c--> \nb", "a\n<!--c-->b\n<!--d-->", "<!-- first -->\na<!--m-->\n"]
 MODELS = ["wikitext", "Scribunto", "json", "css", "javascript", "sanitized-css"]
 KEPT_MODELS = {"wikitext", "Scribunto", "json"}
 DEFAULTS = {"Template:!": "|", "Template:=": "=", "Template:((": "&lbrace;&lbrace;", "Template:))": "&rbrace;&rbrace;"}
@@ -49,9 +50,34 @@ def make_dump(pages):
     return "".join(out).encode("utf-8")
 
 
+def strip_comments(text):
+    """Closed comments are cut out; a comment that stands alone on its line (only blanks before and after it on that line) takes
+    the whole line with it, so that no empty line is left behind (MediaWiki's rule; written as a scan, not as a regex)."""
+    out, pos = [], 0
+    while True:
+        a = text.find("<!--", pos)
+        b = text.find("-->", a + 4) if a >= 0 else -1
+        if a < 0 or b < 0:
+            out.append(text[pos:])
+            return "".join(out)
+        ls = a
+        while ls > pos and text[ls - 1] in " \t":
+            ls -= 1
+        at_line_start = (ls == 0) or text[ls - 1] == "\n"
+        le = b + 3
+        while le < len(text) and text[le] in " \t":
+            le += 1
+        if at_line_start and ls >= pos and le < len(text) and text[le] == "\n":
+            out.append(text[pos:ls])
+            pos = le + 1
+        else:
+            out.append(text[pos:a])
+            pos = b + 3
+
+
 def includable(text):
     """Reference for the includable part of a template body (statement of C04/C12)."""
-    text = re.sub(r"(?s)<!--.*?-->", "", text)
+    text = strip_comments(text)
     text = re.sub(r"(?is)<noinclude\s*>.*?</noinclude\s*>", "", text)
     text = re.sub(r"(?is)<noinclude\s*>.*", "", text)
     text = re.sub(r"(?s)<!--.*", "", text)
